@@ -88,10 +88,29 @@ theorem dropWhile_sorted (keys : List Key) (b : Key) (h : SortedK keys) : Sorted
 
 theorem dropWhile_head (keys : List Key) (b k : Key) (ks : List Key)
     (h : keys.dropWhile (klt · b) = k :: ks) : kle b k = true := by
-  have : ¬ (klt k b = true) := by
-    have := List.head_dropWhile_not (fun x => klt x b) keys (by rw [h]; simp)
-    simpa [h] using this
-  exact not_klt_iff_kle.mp (by simpa using this)
+  induction keys with
+  | nil => simp at h
+  | cons y ys ih =>
+    simp only [List.dropWhile_cons] at h
+    split at h
+    · exact ih h
+    · next hy =>
+      cases h
+      exact not_klt_iff_kle.mp (by simpa using hy)
+
+theorem mem_take_lt {α : Type} (l : List α) (r : Nat) (x : α) (hx : x ∈ l.take r) :
+    ∃ p, p < r ∧ l[p]? = some x := by
+  induction l generalizing r with
+  | nil => simp at hx
+  | cons a l ih =>
+    cases r with
+    | zero => simp at hx
+    | succ r =>
+      simp only [List.take_succ_cons, List.mem_cons] at hx
+      rcases hx with rfl | hx
+      · exact ⟨0, Nat.succ_pos _, rfl⟩
+      · obtain ⟨p, hp, hl⟩ := ih r hx
+        exact ⟨p + 1, by omega, by simpa using hl⟩
 
 /-- **Delete's merge walk is a filter** (sorted offsets, sorted keys). -/
 theorem delWalk_eq_filter (live : List KeyEntry) (hs : SortedKE live) :
@@ -200,16 +219,17 @@ theorem delete_live (ix : Index) (h : IndexInv ix) (keys : List Key) :
     · symm
       apply List.filter_eq_self.mpr
       intro x hx
-      obtain ⟨p, hp⟩ := List.getElem?_of_mem hx
-      have hp' : p < rank ix.live k0 := by
-        by_contra hc
-        rw [List.getElem?_take_of_succ] at hp
-        · simp at hp
-          sorry
-        sorry
-      sorry
+      obtain ⟨p, hp, hl⟩ := mem_take_lt _ _ x hx
+      have hlt := hlo p x hp hl
+      have : ¬ x.key ∈ keys := by
+        intro hin
+        have := hall x.key ((hmem x.key).mp hin)
+        have := klt_of_klt_of_kle hlt this
+        simp [klt_irrefl] at this
+      simp [this]
     · apply List.filter_congr
       intro x _
-      simp [hmem]
+      have := hmem x.key
+      simp only [this]
 
 end Influx.Tsm
